@@ -34,6 +34,26 @@ def draw(rng, focus, maxlen):
     return None
 
 
+LOOKS = ('export', 'tigerxml', 'terminals', 'numbering', 'analysis',
+         'extract', 'navigation', 'labels')
+
+
+def look(R, what, live):
+    import io
+    from . import c18_ops
+    try:
+        c18_ops._observe(R, what, live, io.StringIO())
+    except Exception:
+        pass        # judged where that function is the subject
+
+
+def draw_looks(rng, seq, p=0.3):
+    if rng.random() >= p:
+        return None
+    return [[k, rng.choice(LOOKS)] for k in range(len(seq))
+            if rng.random() < 0.5] or [[0, rng.choice(LOOKS)]]
+
+
 def run_case(ctx, cur, case, rng):
     cur.ctx, cur.case = ctx, case
     if hasattr(cur, 'spec'):
@@ -47,7 +67,12 @@ def run_case(ctx, cur, case, rng):
     try:
         with common.captured():
             with probe.step_budget(STEPS * max(1, ntok // 20) ** 3):
-                for step, params in case['seq']:
+                looks = dict(case.get('look') or [])
+                for k, (step, params) in enumerate(case['seq']):
+                    if k in looks or str(k) in looks:
+                        # something looks at the tree between two steps: it
+                        # is written, numbered, analysed, navigated
+                        look(ctx.R, looks.get(k, looks.get(str(k))), live)
                     live = getattr(tr, step)(live, **params)
                     if live is None:
                         break
@@ -68,6 +93,10 @@ def run(ctx, cur, focus, quick, thorough, maxlen=5):
         if seq is None:
             continue
         case = {'kind': 'pipeline', 'spec': spec, 'seq': seq}
+        looks = draw_looks(rng, seq)
+        if looks:
+            case['look'] = looks
+            ctx.stratum('pipeline: tree looked at between the steps')
         run_case(ctx, cur, case, rng)
         for k, (step, _) in enumerate(seq):
             if step in focus and k > 0:
